@@ -15,6 +15,9 @@
     * `HookHost.__deepcopy__`, `_SubUnitsList.__deepcopy__` (pyroll/core/hooks.py, unit.py) → `copyBody` / `copyObj`
       (memo; weak references re-pointed through the memo)
     * `_SubUnitsList.append` / `__setitem__`, a changed keyword value → `appendUnit` / `replaceUnit` / `setGap`.
+    * the hook value cache (`HookHost.__init__`: `self.__cache__ = dict()`, `Hook.__get__`, `reevaluate_cache`,
+      `rotator_factory`'s `pop`) → component `cache` of an object (the names cached), effect `cachew`,
+      `cacheAdd` / `reCache`; both shallow copies start with an empty cache of their own.
 
   Objects are natural numbers (allocation index).  A field value is always an object id; immutable scalars
   (floats, strings, functions) are objects of kind `atom`, mutable third-party values (sets, lists, dicts,
@@ -48,6 +51,7 @@ structure Obj where
   weak : Option Nat := none    -- the weak back-link (`_parent` / `_unit` / `_roll_pass` / `_owner`)
   items : List Nat := []       -- sub-unit list: the listed units
   content : List Nat := []     -- value object: its content
+  cache : List Nat := []       -- hook host: the names in its hook value cache (`__cache__`, a dict of its own)
   deriving DecidableEq, Repr
 
 /-! ### field codes (`< 100` = public name, copied by the shallow copies) -/
@@ -92,6 +96,7 @@ inductive Eff where
   | write (o f : Nat)     -- `o.__dict__[f] = …`
   | weakw (o : Nat)       -- the weak back-link of `o` re-pointed
   | mutate (o : Nat)      -- in-place change of a list / a value object
+  | cachew (o : Nat)      -- `o.__cache__[name] = …` / `o.__cache__.pop(name)`: the hook value cache of `o` changed
   deriving DecidableEq, Repr
 
 def Eff.target : Eff → Option Nat
@@ -99,6 +104,7 @@ def Eff.target : Eff → Option Nat
   | .write o _ => some o
   | .weakw o => some o
   | .mutate o => some o
+  | .cachew o => some o
 
 def targets (t : List Eff) : List Nat := t.filterMap Eff.target
 
@@ -126,6 +132,9 @@ def S.setItems (s : S) (o : Nat) (l : List Nat) : S :=
 def S.setContent (s : S) (o : Nat) (c : List Nat) : S :=
   { s with h := s.h.upd o { s.h.obj o with content := c }, tr := s.tr ++ [.mutate o] }
 
+def S.setCache (s : S) (o : Nat) (c : List Nat) : S :=
+  { s with h := s.h.upd o { s.h.obj o with cache := c }, tr := s.tr ++ [.cachew o] }
+
 def S.popIt (s : S) : Nat × S :=
   match s.its with
   | [] => (1, s)
@@ -136,11 +145,13 @@ def S.popIt (s : S) : Nat × S :=
 def pubFields (h : H) (o : Nat) : List (Nat × Nat) := (h.obj o).fields.filter (fun e => isPublic e.1)
 
 /-- `Unit.Profile.__init__(unit, template)` (and `Profile(**public entries of out_profile)` with `unit = none`):
-the public explicit entries of the template, SAME value references; the cache is not copied -/
+the public explicit entries of the template, SAME value references; the copy starts with an EMPTY cache of its own
+(`HookHost.__init__`: `self.__cache__ = dict()`), whatever the template has evaluated already -/
 def profCopy (h : H) (k : Kind) (unit : Option Nat) (tpl : Nat) : Obj :=
   { kind := k, fields := pubFields h tpl, weak := unit }
 
-/-- `BaseRollPass.Roll.__init__(template, roll_pass)`; the groove is shared with the template -/
+/-- `BaseRollPass.Roll.__init__(template, roll_pass)`; the groove is shared with the template, the hook value cache
+is NOT (empty, the roll's own) -/
 def rollCopy (h : H) (pass : Nat) (tpl : Nat) : Obj :=
   { kind := .passRoll, fields := pubFields h tpl, weak := some pass }
 
@@ -252,6 +263,27 @@ def writeOpt (s : S) (o f : Nat) (v : Option Nat) : S :=
   | some v => s.write o f v
   | none => s
 
+/-! ### the hook value cache -/
+
+def cROT : Nat := 60      -- name codes: `rotation` of a roll pass
+def cIN : Nat := 61       -- a hook of an in-profile asked by a hook function (equivalent_radius, velocity …)
+def cOUT : Nat := 62      -- … of an out-profile (width, height, filling_ratio …)
+def cUNIT : Nat := 63     -- … of the unit (volume, usable_width, contact length of the pass …)
+def cROLL : Nat := 64     -- … of the pass roll (contact_area, working_radius, roll_power …)
+
+/-- `Hook.__get__`: the value determined from hook functions is kept in the cache OF THE INSTANCE it was asked on
+(`instance.__cache__[self.name] = result`) -/
+def cacheAdd (s : S) (o c : Nat) : S :=
+  s.setCache o (if (s.h.obj o).cache.contains c then (s.h.obj o).cache else (s.h.obj o).cache ++ [c])
+
+/-- `HookHost.reevaluate_cache`: every cached name is evaluated anew; the names stay -/
+def reCache (s : S) (o : Nat) : S := s.setCache o (s.h.obj o).cache
+
+def onRoll (g : S → Nat → S) (s : S) (roll : Option Nat) : S :=
+  match roll with
+  | some r => g s r
+  | none => s
+
 /-! ### solve -/
 
 abbrev Rec := S → Nat → Nat → S × Nat
@@ -341,27 +373,43 @@ def rollHooks (s : S) (roll : Option Nat) : S :=
     s1.write r fTORQUE a
   | none => s
 
-/-- one pass of the solution loop -/
+/-- the hook functions evaluated for the root hooks ask other hooks of the in-profile, the out-profile, the unit
+and (a pass) its roll; every such value is cached on the instance it was asked on (a MAY-effect: which names are
+asked depends on the hook functions registered) -/
+def cacheHooks (s : S) (u i o : Nat) (roll : Option Nat) : S :=
+  onRoll (fun a r => cacheAdd a r cROLL) (cacheAdd (cacheAdd (cacheAdd s i cIN) o cOUT) u cUNIT) roll
+
+/-- one pass of the solution loop:
+`self.in_profile.reevaluate_cache(); self._solve_subunits(); self.reevaluate_cache()` (a pass: also
+`self.roll.reevaluate_cache()`) `; self.out_profile.reevaluate_cache(); self.get_root_hook_results()` -/
 def iterBody (P : Producers) (f : Rec) (u i o : Nat) (roll : Option Nat) (tag : Nat) (ovr : Bool)
     (cs : List Nat) (s : S) : S :=
-  let s1 := (solveChildren f cs s i).1
-  let s2 := inHooks s1 tag i
+  let s0 := reCache s i
+  let s1 := (solveChildren f cs s0 i).1
+  let s1a := reCache (onRoll reCache (reCache s1 u) roll) o
+  let s2 := inHooks s1a tag i
   let s3 := outHooks P s2 tag ovr i o cs roll
   let s4 := unitHooks s3 u
-  rollHooks s4 roll
+  cacheHooks (rollHooks s4 roll) u i o roll
 
 def iterN : Nat → (S → S) → S → S
   | 0, _, s => s
   | k + 1, g, s => iterN k g (g s)
 
-/-- the pre-processor of a roll pass: `rotator_factory` builds a throw-away `Rotator(parent=roll_pass)` and solves it -/
+/-- `Rotator(…, parent=roll_pass)` built by `rotator_factory`, and `pre_processor.solve(in_profile)` -/
+def runRotator (f : Rec) (s : S) (u p : Nat) : S × Nat :=
+  let (s1, r) := s.alloc { kind := .unit, tag := 4, weak := some u }
+  let (s2, l) := s1.alloc { kind := .subList, weak := some r }
+  let s3 := s2.write r fSUB l
+  f s3 r p
+
+/-- the pre-processor of a roll pass: `rotator_factory` forgets the cached `rotation` of the pass
+(`roll_pass.__cache__.pop("rotation", None)`), then (rotation truthy) builds a throw-away rotator and solves it -/
 def preProcess (f : Rec) (s : S) (u p : Nat) : S × Nat :=
   let ob := s.h.obj u
-  if ob.tag = 1 ∧ ob.rot = true then
-    let (s1, r) := s.alloc { kind := .unit, tag := 4, weak := some u }
-    let (s2, l) := s1.alloc { kind := .subList, weak := some r }
-    let s3 := s2.write r fSUB l
-    f s3 r p
+  if ob.tag = 1 then
+    let s0 := s.setCache u (ob.cache.filter (· != cROT))
+    if ob.rot = true then runRotator f s0 u p else (s0, p)
   else (s, p)
 
 /-- `self.in_profile = self.InProfile(self, in_profile)` -/
